@@ -320,24 +320,54 @@ fn viol(oracle: &str, site: &str, detail: String) -> Violation {
     }
 }
 
+/// The edge statements of a DOT text, by structure and not by layout: `[strict] graph|digraph
+/// [name] {` .. `}`, one statement per line; comments, blank lines, `graph [..]` / `node [..]` /
+/// `edge [..]` / `key=value` statements are skipped; an edge statement is `a -> b` or `a -- b`
+/// (a trailing `;` is dropped). Returned as (left, operator, right), names verbatim.
+fn dot_edge_statements(text: &str) -> Result<Vec<(String, String, String)>, String> {
+    let lines: Vec<&str> = text.lines().map(str::trim).filter(|l| !l.is_empty() && !l.starts_with("//") && !l.starts_with('#')).collect();
+    let first = lines.first().copied().unwrap_or("");
+    let mut words = first.trim_end_matches('{').split_whitespace();
+    let mut kw = words.next().unwrap_or("");
+    if kw == "strict" {
+        kw = words.next().unwrap_or("");
+    }
+    if !(kw == "graph" || kw == "digraph") || !first.ends_with('{') || words.count() > 1 || lines.last().copied() != Some("}") || lines.len() < 2 {
+        return Err(format!("dot frame missing: first={:?} last={:?}", lines.first(), lines.last()));
+    }
+    let mut out = Vec::new();
+    for l in &lines[1..lines.len() - 1] {
+        let t = l.trim_end_matches(';').trim_end();
+        let op = if t.contains(" -> ") {
+            " -> "
+        } else if t.contains(" -- ") {
+            " -- "
+        } else {
+            // not an edge: default attributes and graph attributes are layout, anything else is not expected
+            let head = t.split(|c: char| c == '[' || c.is_whitespace()).next().unwrap_or("");
+            if matches!(head, "graph" | "node" | "edge") || (t.contains('=') && !t.contains('[')) {
+                continue;
+            }
+            return Err(format!("not a dot edge line: {l:?}"));
+        };
+        let (a, b) = t.split_once(op).expect("operator is present");
+        out.push((a.to_string(), op.trim().to_string(), b.to_string()));
+    }
+    Ok(out)
+}
+
 fn parse_edges(text: &str, dot: bool, undirected: bool) -> Result<Vec<(String, String)>, String> {
     let mut edges = Vec::new();
-    let lines: Vec<&str> = text.lines().collect();
     if dot {
-        let head = if undirected { "graph G {" } else { "digraph G {" };
-        if lines.first().copied() != Some(head) || lines.last().copied() != Some("}") {
-            return Err(format!("dot frame missing: first={:?} last={:?}", lines.first(), lines.last()));
-        }
-        let op = if undirected { " -- " } else { " -> " };
-        for l in &lines[1..lines.len() - 1] {
-            let t = l.trim();
-            match t.split_once(op) {
-                Some((a, b)) => edges.push((a.to_string(), b.to_string())),
-                None => return Err(format!("not a dot edge line: {l:?}")),
+        let want = if undirected { "--" } else { "->" };
+        for (a, op, b) in dot_edge_statements(text)? {
+            if op != want {
+                return Err(format!("a `{op}` edge in the dot output of a request {} -u", if undirected { "with" } else { "without" }));
             }
+            edges.push((a, b));
         }
     } else {
-        for l in lines {
+        for l in text.lines() {
             match l.split_once(',') {
                 Some((a, b)) if !b.contains(',') => edges.push((a.to_string(), b.to_string())),
                 _ => return Err(format!("not an edge line: {l:?}")),
@@ -759,14 +789,18 @@ pub fn execute(plan: &RgPlan) -> RunOutcome {
                     if commas && colors.is_none() {
                         // names containing the separator: compare the raw lines (names are printed verbatim)
                         let want: Vec<String> = if *dot {
-                            let mut v = vec![if *undirected { "graph G {".to_string() } else { "digraph G {".to_string() }];
-                            v.extend(expect.iter().map(|(a, b)| format!("    {a} {} {b}", if *undirected { "--" } else { "->" })));
-                            v.push("}".to_string());
-                            v
+                            expect.iter().map(|(a, b)| format!("{a} {} {b}", if *undirected { "--" } else { "->" })).collect()
                         } else {
                             expect.iter().map(|(a, b)| format!("{a},{b}")).collect()
                         };
-                        let got: Vec<String> = text.lines().map(|l| l.to_string()).collect();
+                        let got: Vec<String> = if *dot {
+                            match dot_edge_statements(&text) {
+                                Ok(st) => st.into_iter().map(|(a, op, b)| format!("{a} {op} {b}")).collect(),
+                                Err(e) => vec![format!("<{e}>")],
+                            }
+                        } else {
+                            text.lines().map(|l| l.to_string()).collect()
+                        };
                         if got != want {
                             vs.push(viol("G5", "edge-list", format!("--convert output lines {:?} differ from the input list (reversed duplicates merged under -u) {:?}", got, want)));
                         }
@@ -789,7 +823,7 @@ pub fn execute(plan: &RgPlan) -> RunOutcome {
                                 want_edges += k * k - if adjacent(&verts[i], &verts[j]) { k } else { 0 };
                             }
                         }
-                        let got_edges = text.lines().filter(|l| !l.starts_with("graph") && !l.starts_with("digraph") && *l != "}").count();
+                        let got_edges = if *dot { dot_edge_statements(&text).map(|v| v.len()).unwrap_or(usize::MAX) } else { text.lines().filter(|l| !l.trim().is_empty()).count() };
                         if !edges.iter().any(|(a, b)| a == b) && got_edges != want_edges {
                             vs.push(viol("G6", "colour-edge-count", format!("the colour graph of {:?} with {k} colours has {got_edges} edges, expected {want_edges}", edges)));
                         }
